@@ -37,7 +37,7 @@ IsStep(r) == r.a # "final"
 NAllocEv(r) == Cardinality({k \in 1..Len(r.o.base) : r.o.base[k][1] = "alloc"})
 Ok(r) == r.o.res = "ok"
 AllocLike(r) == r.a \in {"alloc", "grow", "shrink"}
-VecStep(r) == r.a \in {"vec_new", "vec_extend", "vec_shrink", "vec_truncate", "vec_drop", "vec_into"} /\ r.o.res # "skipped"
+VecStep(r) == r.a \in {"vec_new", "vec_extend", "vec_shrink", "vec_truncate", "vec_drop", "vec_into", "vec_splice_huge"} /\ r.o.res # "skipped"
 
 SumOf(sq, F(_)) == LET RECURSIVE S(_) S(i) == IF i = 0 THEN 0 ELSE F(sq[i]) + S(i - 1) IN S(Len(sq))
 
@@ -85,7 +85,7 @@ WriteOk(r, cs, w) ==
 \* while an exclusive-borrow collection is filled it writes its elements into the prepared free range; finalising moves
 \* them to the bump side of that range: these steps may write anywhere inside the content range of the current chunk
 \* (header included: a write range may straddle both) that is not a live block (live blocks are covered by the damage check)
-PrepWrite(r) == r.a \in {"prep_push", "prep_reserve", "prep_extend", "prep_commit", "iter_mut", "fmt_mut", "try_with", "iter_grow", "fmt_grow"}
+PrepWrite(r) == r.a \in {"prep_push", "prep_reserve", "prep_extend", "prep_map", "prep_commit", "iter_mut", "fmt_mut", "try_with", "iter_grow", "fmt_grow"}
                 \/ (r.a = "enter" /\ r.args.kind = "prep")        \* (from_elem_in fills the new collection right away)   \* (alloc_try_with constructs the Result in free space first)
 InChunk(cs, lo, hi) == \E i \in 1..Len(cs) : lo >= cs[i].start /\ hi <= cs[i].start + cs[i].size
 
@@ -246,6 +246,8 @@ C07_Viol(r) ==
     \/ r.a = "prep_reserve" /\ Has(r.args, "huge") /\ (r.o.plen # r.exp.x.len \/ r.o.pcap < r.o.plen)
     \* a reserve that overflows, and any request beyond the capacity of a fixed-capacity vector, is refused
     \/ r.a = "vec_extend" /\ VecStep(r) /\ (Has(r.args, "huge") \/ (r.args.fixed /\ r.args.grows)) /\ r.o.res # "err"
+    \* splice with a replacement that cannot fit: an unwinding panic (never a normal return), the vector keeps buffer, length, capacity
+    \/ r.a = "vec_splice_huge" /\ VecStep(r) /\ (r.o.res # "panic" \/ r.o.vaddr # r.o.oaddr \/ r.o.vlen # r.o.plen \/ r.o.vcap # r.o.pcap)
     \* a vector whose growth failed is unchanged (same buffer, length, capacity; its elements are covered by C02 below)
     \/ r.a = "vec_extend" /\ VecStep(r) /\ r.o.res = "err" /\ (r.o.vaddr # r.o.oaddr \/ r.o.vlen # r.o.plen \/ r.o.vcap # r.o.pcap)
     \* after a failure: earlier allocations intact, invariants hold, nothing leaked or released twice ...
@@ -295,7 +297,7 @@ C18_Viol(r) ==
 (* C15  exclusive-borrow collections use free space without moving the     *)
 (*      pointer; finalising advances it by the contents plus padding       *)
 (***************************************************************************)
-PrepFill(r) == (r.a = "enter" /\ r.args.kind = "prep") \/ r.a \in {"prep_push", "prep_reserve", "prep_extend", "prep_drop"}
+PrepFill(r) == (r.a = "enter" /\ r.args.kind = "prep") \/ r.a \in {"prep_push", "prep_reserve", "prep_extend", "prep_map", "prep_drop"}
 Abs(x) == IF x < 0 THEN 0 - x ELSE x
 C15_Viol(r) ==
     \/ PrepFill(r) /\ Has(r.o, "echunks") /\
@@ -316,7 +318,8 @@ C15_Viol(r) ==
          \/ r.o.len # r.exp.x.len * r.exp.x.esz
          \/ r.o.len > 0 /\ r.o.cur # 0 /\ r.o.pp[1] = r.o.chunks[r.o.cur][1] /\
               LET adv == Abs(r.o.chunks[r.o.cur][5] - r.o.pp[2]) IN
-              adv < r.o.len \/ adv > r.o.len + (r.exp.x.eal - 1) + (r.o.ma - 1)
+              \* (padding: for the alignment the buffer was prepared for - map_in_place may have lowered the element alignment since)
+              adv < r.o.len \/ adv > r.o.len + (Max(r.exp.x.eal, r.exp.x.eal0) - 1) + (r.o.ma - 1)
          \/ r.o.len > 0 /\ r.o.addr % r.exp.x.eal # 0
          \/ r.o.damaged # <<>>
     \* alloc_try_with_mut whose closure unwinds: nothing was finalised - the chunk that was current keeps its position and a
